@@ -387,11 +387,15 @@ SndSelfAlts(n) ==
                     <<DefC(FB10, TNone, BlobL("WI", <<FI("w", Fld(Self, f))>>)), Print(Fld(V(FB10), "w"))>> \o @])]])
 
 \* binders that live inside the functions occurring in n: parameters, and definitions in function bodies
+\* (explicit recursion over the kids: a function constructor [j \in .. |-> F(..)] is evaluated lazily, again at every access)
 RECURSIVE SndInnerBinders(_, _)
+RECURSIVE SndInnerBindersKids(_, _, _)
 SndInnerBinders(n, inside) ==
      (IF n.k = "fn" THEN [i \in 1..Len(n.params) |-> [v |-> "parameter", b |-> n.params[i].b]] ELSE <<>>)
   \o (IF inside /\ n.k = "def" THEN <<[v |-> "inner-local", b |-> n.b]>> ELSE <<>>)
-  \o SndFlat([j \in 1..Len(SndKids(n)) |-> SndInnerBinders(SndKids(n)[j], inside \/ n.k = "fn")])
+  \o SndInnerBindersKids(SndKids(n), 1, inside \/ n.k = "fn")
+SndInnerBindersKids(ks, j, inside) ==
+  IF j > Len(ks) THEN <<>> ELSE SndInnerBinders(ks[j], inside) \o SndInnerBindersKids(ks, j + 1, inside)
 
 \* alternatives for an expression node (never applied to an assignment target or to a std name)
 SndExprAlts(n) ==
@@ -471,10 +475,12 @@ SndStmtAlts(n, top) ==
 
 \* binders of the case arms inside n that are not under a nested function
 RECURSIVE SndCaseBinders(_)
+RECURSIVE SndCaseBindersKids(_, _)
 SndCaseBinders(n) ==
   IF n.k = "fn" THEN <<>>
   ELSE (IF n.k = "case" THEN SndFlat([i \in 1..Len(n.arms) |-> IF n.arms[i].bind THEN <<n.arms[i].b>> ELSE <<>>]) ELSE <<>>)
-       \o SndFlat([j \in 1..Len(SndKids(n)) |-> SndCaseBinders(SndKids(n)[j])])
+       \o SndCaseBindersKids(SndKids(n), 1)
+SndCaseBindersKids(ks, j) == IF j > Len(ks) THEN <<>> ELSE SndCaseBinders(ks[j]) \o SndCaseBindersKids(ks, j + 1)
 
 SndIsPush(s) == s.k = "expr" /\ s.e.k = "call" /\ s.e.f.k = "std" /\ s.e.f.name = "list.push" /\ Len(s.e.args) = 2
 
